@@ -8,7 +8,8 @@
 (* steps with priority (the real process is run to quiescence after every    *)
 (* scheduler step); the exhaustive check of LayoutGC itself has no such      *)
 (* priority.  Every record carries the layout state (files, index) in which  *)
-(* the step is taken, so that the driver can report drift.  Used with        *)
+(* the step is taken, so that the driver can report drift.  Closes are       *)
+(* generated only where they can matter (CloseUseful).  Used with            *)
 (* -simulate; each behaviour that reaches Done is printed once.              *)
 EXTENDS LayoutGCMC, Json
 VARIABLE hist
@@ -25,6 +26,10 @@ IntStep == \E c \in Copies :
   \/ CopyEnd(c) /\ Rec("i:CopyEnd", c, "", "")
   \/ CopyFailEnd(c) /\ Rec("i:CopyFailEnd", c, "", "")
 
+\* a close is worth a step of the history when the path was modified since the last collection
+\* (it then either collects or is held off by a lock); once every copy has returned the remaining
+\* budget is spent
+CloseUseful(k) == (modRefs[k].ex /\ modRefs[k].mod) \/ \A c \in Copies : cst[c] \in {"ok", "err"}
 SchedStep ==
   \/ \E c \in Copies :
        \/ CopyBegin(c) /\ Rec("CopyBegin", c, "", "")
@@ -33,14 +38,13 @@ SchedStep ==
        \/ \E n \in Mans : \/ CopyFetch(c, n) /\ Rec("CopyFetch", c, n, "")
                           \/ CopyRefList(c, n) /\ Rec("CopyRefList", c, n, "")
        \/ \E b \in Nodes : CopyBlobStart(c, b) /\ Rec("CopyBlobStart", c, b, "")
-  \/ \E k \in conf.ckeys : Close(k) /\ Rec("Close", "", k, "")
+  \/ \E k \in conf.ckeys : CloseUseful(k) /\ Close(k) /\ Rec("Close", "", k, "")
   \/ \E t \in {e[1] : e \in idx} : TagDelete(t) /\ Rec("TagDelete", "", t, "")
   \/ \E n \in Mans : ManifestDelete(n) /\ Rec("ManifestDelete", "", n, "")
   \/ \E b \in Nodes : PushBlob(b) /\ Rec("PushBlob", "", b, "")
   \/ PushBlobBad /\ Rec("PushBlobBad", "", "", "")
   \/ \E p \in conf.pmans : PushManifest(p) /\ Rec("PushManifest", "", p[1], p[2])
 
-AnyInternal == \E c \in Copies : ENABLED Internal(c)
 GInit == Init /\ hist = <<>>
 GNext == ~Done /\ IF AnyInternal THEN IntStep ELSE SchedStep
 GSpec == GInit /\ [][GNext]_gvars
